@@ -19,8 +19,8 @@ RULE = (
     "finite/infinite mix per side, 0-3 linear constraints (integer-ish matrices, non-zero rows) and 0-3 non-linear "
     "constraints with equality/lower/upper/two-sided/unbounded bounds, a quarter of the cases with values of magnitude 1..1e6 "
     "placed on, 1e-6..1e-4 relative inside or outside a finite bound, R in 1..2 realizations, optional variable / "
-    "objective / constraint scaling transforms; evaluated by an evaluator step in a Plan with 'last' trackers of several "
-    "tolerances attached. Oracle: lower_diff = v - lb, upper_diff = v - ub, violation = max(lb - v, v - ub, 0) in the "
+    "objective / constraint scaling transforms; optional variable mask (fixed variables keep their bounds); evaluated by an evaluator step in a Plan with 'last' trackers of several "
+    "tolerances attached, and once more together with a gradient (EnsembleEvaluator, functions and gradients in one call). Oracle: lower_diff = v - lb, upper_diff = v - ub, violation = max(lb - v, v - ub, 0) in the "
     "user domain for all three groups, present whenever a finite bound exists; tracker accepts iff all violations <= "
     "tolerance. Non-trivial: a group with >=1 infinite and >=1 finite bound, or >=1 violated bound."
 )
@@ -53,6 +53,8 @@ def run_case(case: dict[str, Any]) -> dict[str, Any]:  # noqa: C901, PLR0915
         "variables": {"initial_values": case["x"], "lower_bounds": case["lb"], "upper_bounds": case["ub"]},
         "realizations": {"weights": [1.0] * r_n},
     }
+    if case.get("mask") is not None:  # fixed variables keep their bounds (and their violations)
+        cfg["variables"]["mask"] = case["mask"]
     if l_n:
         cfg["linear_constraints"] = {"coefficients": case["A"], "lower_bounds": case["llb"], "upper_bounds": case["lub"]}
     if c_n:
@@ -78,6 +80,38 @@ def run_case(case: dict[str, Any]) -> dict[str, Any]:  # noqa: C901, PLR0915
     check(code == OptimizerExitCode.EVALUATION_STEP_FINISHED, "exit-code", f"evaluator step returned {code}", case)
     check(len(seen) == 1 and len(seen[0]["results"]) == 1, "harness", "expected one result", case)
     res = seen[0]["results"][0]
+    out = check_result(case, res, ev, "evaluator step")
+    # the same point evaluated together with a gradient (as a speculative optimizer does)
+    from ropt.config.enopt import EnOptConfig
+    from ropt.ensemble_evaluator import EnsembleEvaluator
+    from ropt.plugins import PluginManager
+
+    config = EnOptConfig.model_validate({**cfg, "gradient": {"number_of_perturbations": 2, "perturbation_magnitudes": 0.01, "boundary_types": 1}},
+                                        context=transforms)
+    both = EnsembleEvaluator(config, transforms, ev, PluginManager()).calculate(
+        np.asarray(config.variables.initial_values), compute_functions=True, compute_gradients=True)
+    fres = both[0] if transforms is None else both[0].transform_from_optimizer(transforms)
+    check_result(case, fres, ev, "function+gradient evaluation")
+    if transforms is None:
+        for tol, handler in trackers.items():
+            held = plan.get(handler, "results")
+            max_violation, unsure = out["max_violation"], out["unsure"]
+            if tol is None:
+                feasible = True
+            elif (max_violation == 0.0 and unsure == 0.0) or max_violation + unsure <= 0.5 * tol:
+                feasible = True
+            elif max_violation - unsure > tol * (1 + 1e-6) + 1e-9:
+                feasible = False
+            else:
+                continue
+            check((held is not None) == feasible, "tracker-acceptance",
+                  f"tolerance {tol}: max violation {max_violation!r}, result {'accepted' if held is not None else 'rejected'}", case)
+    return {"nontrivial": out["nontrivial"], "violated": out["max_violation"] > 0}
+
+
+def check_result(case: dict[str, Any], res: Any, ev: AffineEvaluator, where: str) -> dict[str, Any]:  # noqa: ANN401, C901
+    n, r_n, l_n, c_n = case["n"], case["R"], case["L"], case["C"]
+    del n
     x = np.array(case["x"], dtype=np.float64)
     check(bool(np.all(np.abs(np.asarray(res.evaluations.variables) - x) <= 1e-12 * (1 + np.abs(x)))), "variables",
           "user-domain variables differ from the configured point", case)
@@ -89,6 +123,7 @@ def run_case(case: dict[str, Any]) -> dict[str, Any]:  # noqa: C901, PLR0915
     if l_n:
         groups.append(("linear", np.array(case["A"], dtype=np.float64) @ x, np.array(case["llb"], dtype=np.float64),
                        np.array(case["lub"], dtype=np.float64)))
+    a = np.array(case["slopes"], dtype=np.float64)
     if c_n:
         w = np.full(r_n, 1.0 / r_n)
         vals = np.array([sum(w[r] * ev.value("con", r, c, x) for r in range(r_n)) for c in range(c_n)])
@@ -110,30 +145,17 @@ def run_case(case: dict[str, Any]) -> dict[str, Any]:  # noqa: C901, PLR0915
         if got_lo is None and not finite_any and name == "bound":
             continue  # nothing to report for completely unbounded variables
         check(got_lo is not None and got_hi is not None and got_vi is not None, f"{name}-info-missing",
-              f"{name}: a finite bound exists but no differences/violations are reported", case)
+              f"{where}: {name}: a finite bound exists but no differences/violations are reported", case)
         mag = np.abs(v) + np.where(np.isfinite(lo), np.abs(lo), 0.0) + np.where(np.isfinite(hi), np.abs(hi), 0.0)
-        check(same(got_lo, e_lo, mag), f"{name}-lower-diff", f"{name}: lower diff {np.asarray(got_lo).tolist()} != {e_lo.tolist()}", case)
-        check(same(got_hi, e_hi, mag), f"{name}-upper-diff", f"{name}: upper diff {np.asarray(got_hi).tolist()} != {e_hi.tolist()}", case)
-        check(same(got_vi, e_vi, mag), f"{name}-violation", f"{name}: violation {np.asarray(got_vi).tolist()} != {e_vi.tolist()}", case)
+        check(same(got_lo, e_lo, mag), f"{name}-lower-diff", f"{where}: {name}: lower diff {np.asarray(got_lo).tolist()} != {e_lo.tolist()}", case)
+        check(same(got_hi, e_hi, mag), f"{name}-upper-diff", f"{where}: {name}: upper diff {np.asarray(got_hi).tolist()} != {e_hi.tolist()}", case)
+        check(same(got_vi, e_vi, mag), f"{name}-violation", f"{where}: {name}: violation {np.asarray(got_vi).tolist()} != {e_vi.tolist()}", case)
         if case.get("near"):
             unsure = max(unsure, 1e-12 * float(np.max(mag, initial=0.0)))
         outside = (v < lo - 1e-12 * mag) | (v > hi + 1e-12 * mag)
         check(bool(np.all(np.asarray(got_vi)[outside] > 0)), f"{name}-violation",
               f"{name}: a value outside a finite bound has no positive violation", case)
-    if transforms is None:
-        for tol, handler in trackers.items():
-            held = plan.get(handler, "results")
-            if tol is None:
-                feasible = True
-            elif (max_violation == 0.0 and unsure == 0.0) or max_violation + unsure <= 0.5 * tol:
-                feasible = True
-            elif max_violation - unsure > tol * (1 + 1e-6) + 1e-9:
-                feasible = False
-            else:
-                continue
-            check((held is not None) == feasible, "tracker-acceptance",
-                  f"tolerance {tol}: max violation {max_violation!r}, result {'accepted' if held is not None else 'rejected'}", case)
-    return {"nontrivial": nontrivial, "violated": max_violation > 0}
+    return {"nontrivial": nontrivial, "max_violation": max_violation, "unsure": unsure}
 
 
 def hypothesis_shard(item: dict[str, Any]) -> Collector:
@@ -195,8 +217,13 @@ def hypothesis_shard(item: dict[str, Any]) -> Collector:
                 sl = np.array(slopes).reshape(r_n, 1 + c_n, n)
                 of = np.array(offsets).reshape(r_n, 1 + c_n)
                 snap(np.mean(sl[:, 1:] @ xa + of[:, 1:], axis=0), nlb, nub)
+        mask = None
+        if n > 1 and draw(st.integers(0, 2)) == 0:
+            mask = [draw(st.booleans()) for _ in range(n)]
+            if not any(mask):
+                mask[draw(st.integers(0, n - 1))] = True
         return {
-            "near": near,
+            "mask": mask, "near": near,
             "n": n, "R": r_n, "L": l_n, "C": c_n, "x": x, "lb": lb, "ub": ub,
             "A": a_mat, "llb": llb, "lub": lub, "nlb": nlb, "nub": nub,
             "slopes": slopes, "offsets": offsets,
@@ -212,7 +239,7 @@ def hypothesis_shard(item: dict[str, Any]) -> Collector:
         col.case(case, nontrivial=info["nontrivial"], classes=(
             "violated" if info["violated"] else "feasible", f"L={case['L']}", f"C={case['C']}",
             "transforms" if case["vscale"] or case["voff"] or case["cscale"] else "plain",
-            "bounds-inf-both-sides" if mixed_var else "bounds-other",
+            "bounds-inf-both-sides" if mixed_var else "bounds-other", "fixed-variables" if case["mask"] and not all(case["mask"]) else "all-free",
             ("near-bound-large-magnitude" if max(abs(v) for v in case["x"]) > 100 else "near-bound") if case["near"] else "generic-bounds"))  # noqa: PLR2004
 
     run_hypothesis(col, cases(), body, seed=item["seed"], max_examples=item["examples"])
